@@ -290,7 +290,7 @@ fn reject_program(r: &Reject) -> Program {
 }
 
 pub fn run(ctx: &mut Ctx) {
-    ctx.rule("scenarios: C01-style programs extended with extra-data / aligned / ZipCrypto entries, optional raw copies from a generated source archive and an optional append round; every successful finish() is judged by the independent strict parser (offsets, counts, sizes, local/central agreement, UTF-8 flag, ZIP64 consistency, TLV extras, decoded CRC/size) and compared field by field with the model; a sample is also judged by CPython zipfile and unzip -t. Non-trivial = >=2 entries or an extra/aligned/encrypted/raw/appended entry. reject: name/comment/extra lengths around 65535/65536, with the writer starting at offset 0, just below 2^32 and above 2^32 (sparse sink; central records then need their own ZIP64 record next to the caller's extra data), stopping at the first refusal or continuing with the remaining calls (after a refused finish(): a shorter comment and a second finish()) - the oracle is 'some call returns Err, or the archive parses strictly and carries the full-length field'; whenever finish() returns Ok the archive must parse strictly and hold exactly the entries whose creation succeeded.");
+    ctx.rule("scenarios: C01-style programs extended with extra-data / aligned / ZipCrypto entries, optional raw copies from a generated source archive and an optional append round; every successful finish() is judged by the independent strict parser (offsets, counts, sizes, local/central agreement, UTF-8 flag, ZIP64 consistency, TLV extras, decoded CRC/size) and compared field by field with the model; a sample is also judged by CPython zipfile and unzip -t. Non-trivial = >=2 entries or an extra/aligned/encrypted/raw/appended entry. raw_straddle: raw copies of hand-laid-out sparse source entries whose uncompressed/compressed sizes lie on different sides of 4 GiB (ZIP64 records in local header and central record exactly as needed). reject: name/comment/extra lengths around 65535/65536, with the writer starting at offset 0, just below 2^32 and above 2^32 (sparse sink; central records then need their own ZIP64 record next to the caller's extra data), stopping at the first refusal or continuing with the remaining calls (after a refused finish(): a shorter comment and a second finish()) - the oracle is 'some call returns Err, or the archive parses strictly and carries the full-length field'; whenever finish() returns Ok the archive must parse strictly and hold exactly the entries whose creation succeeded.");
     ctx.assume("version-needed is only required to agree between local and central header and be >=45 when a central ZIP64 record is present");
     ctx.assume("CPython zipfile / Info-ZIP unzip are trusted on the feature subset they support; unzip exit status 1 (warning) is not treated as rejection");
 
@@ -383,6 +383,24 @@ pub fn run(ctx: &mut Ctx) {
             }
         },
     );
+
+    // raw copies whose declared sizes lie on different sides of 4 GiB (hand-laid-out sparse sources): the
+    // local header needs its ZIP64 record exactly when either size overflows, the central record exactly
+    // the overflowing values - judged by the strict parser on the finished archive
+    #[derive(Clone, Debug, Serialize, Deserialize, Hash)]
+    struct RawStraddle(Vec<(u64, u64)>, u64);
+    const G: u64 = 1 << 32;
+    let rs: Vec<RawStraddle> = ctx.q(
+        vec![RawStraddle(vec![(G + 243, 4000)], 0), RawStraddle(vec![(4000, G + 243)], 0)],
+        vec![RawStraddle(vec![(G + 243, 4000)], 0), RawStraddle(vec![(4000, G + 243)], 0), RawStraddle(vec![(G - 1, 70), (G, 71), (70, G - 1), (71, G)], G - 77), RawStraddle(vec![(G + 1, G + 2)], 5)],
+    );
+    ctx.enumerate::<RawStraddle>("raw_straddle", rs.len() as u64, &|i| rs[i as usize].clone(), &|c: &RawStraddle, info: &mut Info| {
+        info.nontrivial = true;
+        match catch(|| super::c14::check_straddle(&c.0, c.1)) {
+            Ok(r) => Verdict::from_result(r),
+            Err(p) => Verdict::Fail(format!("PANIC: {p}")),
+        }
+    });
 
     // reject domain
     let kinds = ["name", "dirname", "symlink-name", "comment", "extra-shared", "extra-local", "extra-central"];
